@@ -92,7 +92,7 @@ def _param_names(pred):
 
 
 def _env_of(interp, frame, extra):
-    env = {}
+    env = {'ghost': interp.st.ghost, 'trace': interp.st.trace}
     if interp.collect is not None:
         env['yielded'] = interp.collect[1]
     if frame.info.filename.endswith('functools_model.py'):
